@@ -458,6 +458,13 @@ func init() {
 
 func (c *VCtx) ctxParent(ctx *Term) *Term {
 	fn := c.declareFun("ctxparent", []Sort{SRef}, SRef)
+	if !c.declSet["ax:ctxparent"] {
+		// a derived context is cancelled no later than the context it derives from
+		c.declSet["ax:ctxparent"] = true
+		c.declareFun("closedAt", []Sort{SRef}, SInt)
+		c.declareFun("ctxdone", []Sort{SRef}, SRef)
+		c.facts0(T(SBool, "(forall ((x Ref)) (! (=> (and (not (= (ctxparent x) null)) (>= (closedAt (ctxdone (ctxparent x))) 0)) (and (>= (closedAt (ctxdone x)) 0) (<= (closedAt (ctxdone x)) (closedAt (ctxdone (ctxparent x)))))) :pattern ((ctxparent x))))"))
+	}
 	return T(SRef, fmt.Sprintf("(%s %s)", fn, ctx.S))
 }
 
